@@ -11,5 +11,5 @@ sed -i -E "$EXPR" "$D/$FILE"
 if diff -q "/repo/$FILE" "$D/$FILE" >/dev/null; then echo "MUTATION DID NOT APPLY"; exit 3; fi
 diff "/repo/$FILE" "$D/$FILE" | head -6
 set +e
-VERIF_REPO="$D" VERIF_SCALE="${VERIF_SCALE:-0.5}" /verif/vcheck "$CHECK" --tier "$TIER" > "$D/out.txt"; RC=$?; tail -4 "$D/out.txt"
+VERIF_REPO="$D" VERIF_EVIDENCE_DIR="$D/evidence" VERIF_REPLAY_DIR="$D/replays" VERIF_SCALE="${VERIF_SCALE:-0.5}" /verif/vcheck "$CHECK" --tier "$TIER" > "$D/out.txt"; RC=$?; tail -4 "$D/out.txt"
 echo "exit=$RC"
